@@ -206,6 +206,15 @@ ROUNDING_OPS = ('mul', 'div', 'div_rounded', 'mul_rounded', 'round', 'checked_ro
 
 
 def search(pid, r, d, key, tier, seed, profile_pair=None, budget=None):
+    if (key.get('fn') or '') == 'Dec' or (key.get('fn') or '').endswith('::Dec'):
+        import dec_grid
+        w = dec_grid.run()
+        if w:
+            return w
+    return _search(pid, r, d, key, tier, seed, profile_pair, budget)
+
+
+def _search(pid, r, d, key, tier, seed, profile_pair=None, budget=None):
     """returns a dict describing the failing input, or None"""
     rng = random.Random(seed or 12345)
     deadline = time.time() + (budget or (300 if tier == 'thorough' else 25))
@@ -272,6 +281,14 @@ def compare(lines, metas, profile_pair=None):
 
 def replay(rec):
     w = rec['input']
+    if w.get('op') == 'dec_macro_grid':
+        import dec_grid
+        again = dec_grid.run()
+        if again:
+            print('REPRODUCED on the real crate: %s' % again)
+            return 1
+        print('the Dec! grid agrees with from_str on the current tree')
+        return 0
     line = '\t'.join([w['op'], w['lhs'], w['rhs'], str(w['n']), w['mode'], str(w.get('prec', '-'))])
     meta = [(w['op'], w['lhs'], w['rhs'], w['n'], w['mode'], str(w.get('prec', '-')))]
     again = compare([line], meta, tuple(w['profiles']) if w.get('profiles') else None)
